@@ -56,7 +56,7 @@ theorem castOut_text_done (app : App) (fw : Bool) (cnt : Nat) (s : Slots) (t : S
 
 /-- once the counter has passed the bound the iteration returns -/
 theorem step_guard_done (app : App) (fw : Bool) (cnt : Nat) (s : Slots) (out : Out)
-    (h : Gen.castMaxLoops < cnt + 1) : (step app fw (.run cnt s out)).isDone = true := by
+    (h : Gen.wsgiCastMaxLoops < cnt + 1) : (step app fw (.run cnt s out)).isDone = true := by
   unfold step
   simp only [gt_iff_lt, h, if_true]
   unfold defaultPage
@@ -66,7 +66,7 @@ theorem step_guard_done (app : App) (fw : Bool) (cnt : Nat) (s : Slots) (out : O
 theorem step_cnt (app : App) (fw : Bool) (cnt : Nat) (s : Slots) (out : Out) :
     (step app fw (.run cnt s out)).isDone = true ∨
     ∃ s' o, step app fw (.run cnt s out) = .run (cnt + 1) s' o := by
-  by_cases h : Gen.castMaxLoops < cnt + 1
+  by_cases h : Gen.wsgiCastMaxLoops < cnt + 1
   · left; exact step_guard_done app fw cnt s out h
   · unfold step
     simp only [gt_iff_lt, h, if_false]
@@ -87,7 +87,7 @@ theorem runLoop_succ_run (app : App) (fw : Bool) (n cnt : Nat) (s : Slots) (o : 
 
 /-- the loop returns within the iterations its own guard allows -/
 theorem runLoop_terminates (app : App) (fw : Bool) :
-    ∀ (n cnt : Nat) (s : Slots) (out : Out), cnt ≤ Gen.castMaxLoops → Gen.castMaxLoops + 1 ≤ cnt + n →
+    ∀ (n cnt : Nat) (s : Slots) (out : Out), cnt ≤ Gen.wsgiCastMaxLoops → Gen.wsgiCastMaxLoops + 1 ≤ cnt + n →
       (runLoop app fw n (.run cnt s out)).isDone = true := by
   intro n
   induction n with
@@ -97,7 +97,7 @@ theorem runLoop_terminates (app : App) (fw : Bool) :
     rw [runLoop_succ_run]
     rcases step_cnt app fw cnt s out with hd | ⟨s', o, hs⟩
     · exact runLoop_of_isDone _ _ _ _ hd
-    · by_cases hg : Gen.castMaxLoops < cnt + 1
+    · by_cases hg : Gen.wsgiCastMaxLoops < cnt + 1
       · exact runLoop_of_isDone _ _ _ _ (step_guard_done app fw cnt s out hg)
       · rw [hs]
         exact ih (cnt + 1) s' o (by omega) (by omega)
